@@ -46,3 +46,29 @@ pub fn corr(args: &[&str]) -> String {
         _ => "BADCASE".into(),
     }
 }
+
+/// REENC x<bytes> x<payload> -> OK MEM <T|F> WIRE <T|F|ERR> | ERR
+/// decode, change the bundle (set_payload, lifetime 12345 ms), to_cbor: the emitted bundle is uncorrupted, it must pass the check in
+/// memory and after decoding
+pub fn reenc(args: &[&str]) -> String {
+    match args {
+        [t, p] => match (get_bytes(t), get_bytes(p)) {
+            (Some(input), Some(payload)) => match Bundle::try_from(input.as_slice()) {
+                Ok(mut bndl) => {
+                    bndl.set_payload(payload);
+                    bndl.primary.lifetime = std::time::Duration::from_millis(12345);
+                    let bytes = bndl.to_cbor();
+                    let mem = crate::bio::crc_valid_stable(&mut bndl);
+                    let wire = match Bundle::try_from(bytes.as_slice()) {
+                        Ok(mut b2) => crate::bio::crc_valid_stable(&mut b2).to_string(),
+                        Err(_) => "ERR".into(),
+                    };
+                    format!("OK MEM {} WIRE {}", mem, wire)
+                }
+                Err(_) => "ERR".into(),
+            },
+            _ => "BADCASE".into(),
+        },
+        _ => "BADCASE".into(),
+    }
+}
